@@ -154,9 +154,14 @@ def run(eng, rep, tier):
     def config_of(ev):
         """the (remaining, output, state) triple put on the worklist, however it is nested: (r, o, s) or ((r, o), s)"""
         v = ev.value
-        if v is None or v.items is None:
+        if ev.kind == "write" and ev.wkind in ("mutate:extend", "mutate:__iadd__", "mutate:augassign", "augassign") and v is not None and \
+                ev.node is not None and any(isinstance(x, ast.Tuple) for x in ast.walk(ev.node)):
+            # a batch of configurations built on the spot (`succ += [(r, o, s) for ..]`); handing an existing batch on
+            # (`to_process.extend(succ)`) creates no configuration
+            v = v.elem
+        elif not ((ev.kind == "write" and ev.wkind in ("mutate:append", "mutate:appendleft")) or ev.kind == "yield"):
             return None
-        if not ((ev.kind == "write" and ev.wkind in ("mutate:append", "mutate:appendleft")) or ev.kind == "yield"):
+        if v is None or v.items is None:
             return None
         leaves = _flat(v)
         if len(leaves) == 3 and len(v.items) in (2, 3):
